@@ -109,6 +109,27 @@ def c05c_lemmas():
     return c06_extras()
 
 
+def c06_lean_extra(tier):
+    """thorough tier: the published term ln G_i (closed form c05c_lng) is the logarithm of dG/dy_i of the textbook generating
+    function (lean/C06Lemmas.lean: real analysis over the specification, not over the code)"""
+    import os
+    import subprocess
+    import time
+    from pyvc.driver import Extra
+    name = 'C06:lean:published-nested-term-is-the-log-of-the-partial-derivative-of-G'
+    path = os.path.join(os.path.dirname(os.path.dirname(os.path.abspath(__file__))), 'lean', 'C06Lemmas.lean')
+    if tier != 'thorough' or not os.path.exists(path):
+        return []
+    t0 = time.time()
+    try:
+        r = subprocess.run(['lake', 'env', 'lean', path], capture_output=True, text=True, timeout=900, cwd='/opt/veriftools/mathlib4')
+    except Exception as ex:       # pragma: no cover
+        return [Extra(name, 'lean', 'unknown', 'lean4/mathlib', time.time() - t0, str(ex)[:300])]
+    txt = r.stdout + r.stderr
+    ok = r.returncode == 0 and 'error' not in txt and 'sorry' not in txt
+    return [Extra(name, 'lean', 'discharged' if ok else 'unknown', 'lean4/mathlib', time.time() - t0, '' if ok else txt[-600:])]
+
+
 def extra(tier, seed):
-    return (c05c_lemmas() + nests_extra('C06', 'tuple', 'C06:bounded:nests:tuple-syntax-field-wise-equals-object-syntax', tier)
+    return (c05c_lemmas() + c06_lean_extra(tier) + nests_extra('C06', 'tuple', 'C06:bounded:nests:tuple-syntax-field-wise-equals-object-syntax', tier)
             + tv_extras('C06', tier, seed, EXPECTED))
